@@ -48,6 +48,13 @@ type World struct {
 
 	RepoDir string
 	Warn    []string
+	Guards  map[string]*guardInfo // "<struct name>.<field index>" -> guard
+}
+
+type guardInfo struct {
+	MutexField int
+	Tags       []string
+	Name       string
 }
 
 const repoModule = "github.com/russellhaering/gosaml2"
@@ -690,6 +697,28 @@ func (w *World) LoadSpecs(extDir string) error {
 				}
 			}
 			w.ghost[n] = append(w.ghost[n], ghostFieldInfo{g.Name, gt})
+		}
+	}
+	w.Guards = map[string]*guardInfo{}
+	for _, sf := range w.Specs {
+		for _, g := range sf.Guards {
+			ot, err := w.ResolveType(sf, g.Owner)
+			if err != nil {
+				return fmt.Errorf("%s: %v", g.Pos, err)
+			}
+			fi, mi := -1, -1
+			for i, f := range w.StructFields(ot) {
+				if f.Name == g.Field {
+					fi = i
+				}
+				if f.Name == g.Mutex {
+					mi = i
+				}
+			}
+			if fi < 0 || mi < 0 {
+				return fmt.Errorf("%s: guarded: unknown field", g.Pos)
+			}
+			w.Guards[fmt.Sprintf("%s.%d", w.structName(ot), fi)] = &guardInfo{MutexField: mi, Tags: g.Tags, Name: g.Field}
 		}
 	}
 	for _, sf := range w.Specs {
